@@ -54,3 +54,15 @@ Check C07_latest_wins : forall o : opts, (0 < delete_after o)%Z -> forall (now :
 Print Assumptions C07_latest_wins.
 
 
+
+(** ---- the frame that creates the row ---- *)
+From SQ Require Import Base Table Update EndToEnd EndToEnd2.
+
+
+(** an identification squitter that creates the row delivers callsign and category *)
+Theorem C07_new_row : forall (o : opts) (now : Z) (s : state) (line : list N) (s' : state) (rf : bool) (a : N) (m : list N), step_line o now s line = Ok (s', rf, Applied 17 a) -> lookup (tbl s) a = None -> (0 < delete_after o)%Z -> get_message line = Ok (Some m) -> 1 <= field m 33 37 <= 4 -> exists r' : row, lookup (tbl s') a = Some r' /\ r_ais r' = Some (Ia5.ais_spec m) /\ category r' = (field m 33 37, field m 38 40).
+Proof. exact callsign_new_row. Qed.
+Check C07_new_row : forall (o : opts) (now : Z) (s : state) (line : list N) (s' : state) (rf : bool) (a : N) (m : list N), step_line o now s line = Ok (s', rf, Applied 17 a) -> lookup (tbl s) a = None -> (0 < delete_after o)%Z -> get_message line = Ok (Some m) -> 1 <= field m 33 37 <= 4 -> exists r' : row, lookup (tbl s') a = Some r' /\ r_ais r' = Some (Ia5.ais_spec m) /\ category r' = (field m 33 37, field m 38 40).
+Print Assumptions C07_new_row.
+
+
